@@ -95,7 +95,7 @@ Grow(W, Fs, k) == IF k = 0 THEN Fs ELSE Grow(W, Fs \cup UNION {{F \cup {f} : f \
 FaultSets == Grow(World, {{}}, MaxFaults)
 
 LineOf(W, F, r) == [ev |-> "scan", src |-> "model", id |-> 0, faults |-> SetToSortedSeq(F), calls |-> r.calls, ret |-> r.ret,
-                    panic |-> FALSE, hang |-> FALSE, exit |-> FALSE, panicMsg |-> "", lookups |-> [g \in GSet |-> <<>>]]
+                    panic |-> FALSE, hang |-> FALSE, exit |-> FALSE, crash |-> r.crash, panicMsg |-> "", lookups |-> [g \in GSet |-> <<>>]]
 PropViolations(W, F, r) == ViolationsFor(PropIds, LineOf(W, F, r), W, r.W, r)
 
 \* C12 / C11 on the specification: what happens to group g does not depend on the state (or the dry flag) of another group h,
